@@ -246,6 +246,7 @@ func (s *Server) Close() error {
 	case <-s.done:
 		return ErrServerClosed
 	default:
+		verifYield("server.close")
 		close(s.done)
 	}
 
@@ -277,6 +278,7 @@ func (s *Server) Shutdown(ctx context.Context) error {
 	case <-s.done:
 		return ErrServerClosed
 	default:
+		verifYield("server.shutdown")
 		close(s.done)
 	}
 
